@@ -174,6 +174,45 @@ class Check:
                                   f"proof claim dropped for this target in this run")
         return results
 
+    # ------------------------------------------------------------------ frame (ownership) contracts
+    def run_frames(self, prop=None, names=None):
+        """Frame contracts of contracts/frames.py that carry this property: one obligation per mutation / alias / required-statement
+        site of the current source, discharged by the ownership analysis (pyvc/frame.py).  refuted -> VIOLATION (no input to
+        replay: `no-failing-input-found`; the bounded families of the check supply inputs where they can); undecided (a call
+        without a frame summary receives a value that is not fresh) -> note, the bounded families decide."""
+        from pyvc import frame
+        from contracts import frames as F
+        todo = [c for c in F.for_prop(prop or self.prop) if names is None or c["name"] in names]
+        n_ob = 0
+        for c in todo:
+            t1 = time.time()
+            r = frame.check(c)
+            self.functions.append(dict(name=r["name"], target=r["target"], source_sha=r["source_sha"], lines=r["lines"], status=r["status"],
+                                       seconds=round(time.time() - t1, 4), cover=r["cover"], kind="frame contract"))
+            for cal in sorted(c.get("callees", {})):
+                self.trusted.add(f"assumed frame summary of {cal} (in the contract of {c['name']})")
+            if r["status"] == "undecided" and not r["obligations"]:
+                self.undecided_targets.append(f"{r['name']}: {r['detail']}")
+                self.notes.append(f"{r['name']}: undecided ({r['detail']}) -> degraded-to-bounded")
+                continue
+            for o in r["obligations"]:
+                o = dict(o, target=r["name"])
+                n_ob += 1
+                self.obligations.append(o)
+                if o["status"] == "undecided":
+                    self.notes.append(f"{o['name']}: undecided ({o['reason']}) -> degraded-to-bounded, not reported")
+                elif o["status"] == "refuted":
+                    self.report_failure(dict(site=f"{self.prop}/frame:{r['name']}", obligation=o["name"], clauses=[o["name"]],
+                                             solver_output=dict(backend="ownership-typing", statement=o["goal"], line=o["lineno"], reason=o["reason"]),
+                                             input=None, features=dict(frame=True, contract=r["name"]),
+                                             note="frame obligation generated from the current source; the analysis yields no input — "
+                                                  "the bounded families of this check report one where they reach the site"), has_input=False)
+        if todo and not n_ob:
+            self.errors.append("frame contracts generated zero obligations")
+        self.trusted.add("ownership analysis pyvc/frame.py: dict(x) / list(x) / x.copy() copy one level, deepcopy copies all levels, mutation only "
+                         "through stores, in-place operators, del and the listed mutating methods (no setattr / __dict__ / exec)")
+        return n_ob
+
     # ------------------------------------------------------------------ tier B
     def add_bounded(self, name, evaluations, distinct_nontrivial, rule, samples):
         self.bounded.append(dict(name=name, evaluations=int(evaluations), distinct_nontrivial=int(distinct_nontrivial),
